@@ -3,9 +3,11 @@ CONSTANT MaxI = 18
 CONSTANT MaxK = 6
 CONSTANT MaxD = 2
 CONSTANT MaxS = 3
+CONSTANT EmitCases = TRUE
 CONSTANT Mutant = "none"
 INVARIANT TypeOK
 INVARIANT ExactWhereClaimed
 INVARIANT Candidates
 INVARIANT Partition
+INVARIANT Cases
 CHECK_DEADLOCK FALSE
